@@ -76,4 +76,22 @@ CHECKS = {
         "real": MESH_REAL + ["pkg/netceptor ping/traceroute"], "stub": MESH_STUB,
         "assumptions": ["route update timers held off (1 h period) so the tables read are the tables used"],
     },
+    "C07": {
+        "level": "exploration",
+        "level_text": "seeded sequences of hostile datagrams and raw stream bytes (grammar over every message type, JSON shape and field "
+                      "type substitution, data headers, broken framing) fed by scripted peers to a real node in both protocol phases, with a "
+                      "liveness probe through the victim for two well-behaved peers after every input; a worker crash or a wedge is the violation",
+        "level_note": "sampling of an unbounded input space; messages that are valid protocol requests (e.g. a well-formed routing update about a "
+                      "real node, a duplicate-node notice) are honoured by design and are not generated",
+        "quick": {"runs": 640, "per_proc": 40},
+        "thorough": {"runs": 60000, "per_proc": 200},
+        "hang_is_violation": True,
+        "proc_timeout": 300,
+        "rule": "one run = victim with two real neighbours (one datagram link, one framed link) and two scripted peers (datagram session, "
+                "framed byte stream); 4-40 inputs of 20 kinds x parameters, each before or after the handshake; after each input: ping a->b "
+                "through the victim answered and the victim's status readable; distinct_nontrivial counts distinct sets of input kinds",
+        "real": MESH_REAL, "stub": MESH_STUB,
+        "assumptions": ["a process crash in receptor code while running this workload is a violation; a watchdog timeout with a goroutine "
+                        "dump showing receptor code spinning or waiting on a lock is a wedge"],
+    },
 }
